@@ -54,6 +54,8 @@ class C06(hc.PProp):
             tn = {'id': index * 10 + i, 'c': side(), 's': side(), 'early': rng.random() < 0.3,
                   'end': rng.choice(['client_fin', 'client_fin', 'server_fin', 'server_fin', 'client_close', 'server_close', 'client_rst', 'server_rst', 'both_fin', 'late_client_data']),
                   'http10': rng.random() < 0.2, 'start': rng.choice([0, 0, 3000])}
+            if rng.random() < 0.2:
+                tn['cl_hdr'] = rng.choice([1, 8, 1000, 100000])
             if tn['end'] == 'late_client_data':
                 # a non-reading client, a server that sends more than squid can buffer and closes, then client data towards the closed server
                 tn['s']['total'] = rng.choice([150000, 400000, 1000000]); tn['s']['seg'] = 'rand'; tn['s']['pace'] = 0; tn['s']['gap'] = 0; tn['s']['bursts'] = 1; tn['s']['window'] = 2000000
@@ -110,7 +112,9 @@ class C06(hc.PProp):
             if tn['c']['readpace']:
                 cl.add('readpace %d %d' % tuple(tn['c']['readpace']))
             ver = b'HTTP/1.0' if tn['http10'] else b'HTTP/1.1'
-            head = b'CONNECT 10.0.0.2:%d %s\r\nHost: 10.0.0.2:%d\r\nX-Sim-Req: %d\r\n\r\n' % (port, ver, port, tn['id'])
+            # some CONNECT requests carry a (meaningless) Content-Length: squid must not take early tunnel bytes for a request body
+            extra = b'Content-Length: %d\r\n' % tn['cl_hdr'] if tn.get('cl_hdr') else b''
+            head = b'CONNECT 10.0.0.2:%d %s\r\nHost: 10.0.0.2:%d\r\nX-Sim-Req: %d\r\n' % (port, ver, port, tn['id']) + extra + b'\r\n'
             bs = bursts(cdata, tn['c'])
             if tn['early'] and bs:
                 cl.add('send %s seg whole' % Payload(head, bs[0]).token()); bs = bs[1:]
